@@ -15,6 +15,8 @@
 #include <sys/stat.h>
 #include <sys/mman.h>
 #include <dirent.h>
+#include <sys/resource.h>
+#include <signal.h>
 
 int zck_main(int, char **);
 int unzck_main(int, char **);
@@ -90,6 +92,9 @@ static void run_one(int idx, FILE *out, void *vctx) {
     if(pid < 0) die("fork");
     if(pid == 0) {
         if(chdir(dir) != 0) _exit(97);
+        struct rlimit rl = {256u << 20, 256u << 20};     /* output files are limited like a small disk */
+        setrlimit(RLIMIT_FSIZE, &rl);
+        signal(SIGXFSZ, SIG_IGN);
         /* argv strings must be writable: the tools edit them in place */
         char **argv = calloc(k->nargs + 2, sizeof *argv);
         argv[0] = strdup(k->tool);
